@@ -695,6 +695,10 @@ public:
     using T_VerifParam = detail::func_first_arg_t<T_Func>;
 
     auto start = impl().get_raw_value();
+    // If this pointer lives in sandbox memory (tainted_volatile), it can change
+    // at any time. Everything below has to work on the one value read above,
+    // not read the pointer again
+    auto checked_ptr = tainted<T, T_Sbx>::internal_factory(start);
     if_constexpr_named(
       cond1,
       std::is_same_v<T_VerifParam, std::unique_ptr<char[]>> ||
@@ -710,7 +714,7 @@ public:
       // memory outsider the range
       auto str_len = std::strlen(start) + 1;
       std::unique_ptr<T_CopyAndVerifyRangeEl[]> target =
-        copy_and_verify_range_helper(str_len);
+        checked_ptr.copy_and_verify_range_helper(str_len);
 
       // ensure the string has a trailing null
       target[str_len - 1] = '\0';
@@ -730,7 +734,8 @@ public:
       // memory outsider the range
       auto str_len = std::strlen(start) + 1;
 
-      const char* checked_start = (const char*)verify_range_helper(str_len);
+      const char* checked_start =
+        (const char*)checked_ptr.verify_range_helper(str_len);
       if (checked_start == nullptr) {
         std::string param = "";
         return verifier(param);
